@@ -30,6 +30,21 @@ impl ChunkLock {
     /// Acquire the lock. Not reentrant: a holder must not call a function
     /// that takes it again.
     pub(crate) fn lock(&self) -> MutexGuard<'_, ()> {
+        // Under the deterministic simulator a thread that finds the lock
+        // taken hands control back instead of blocking (the holder may be
+        // parked at a schedule point inside its critical section).
+        #[cfg(feature = "neumann_verif")]
+        loop {
+            match self.0.try_lock() {
+                Ok(guard) => return guard,
+                Err(std::sync::TryLockError::Poisoned(p)) => return p.into_inner(),
+                Err(std::sync::TryLockError::WouldBlock) => {
+                    if !tensor_store::verif_hooks::yield_point("blob.chunk_lock.blocked") {
+                        break;
+                    }
+                },
+            }
+        }
         self.0.lock().unwrap_or_else(PoisonError::into_inner)
     }
 }
@@ -128,6 +143,8 @@ impl GarbageCollector {
                     let size =
                         usize::try_from(get_int(&tensor, "_size").unwrap_or(0).max(0)).unwrap_or(0);
 
+                    #[cfg(feature = "neumann_verif")]
+                    tensor_store::verif_hooks::yield_point("blob.gc.check_to_delete");
                     if self.store.delete(&chunk_key).is_ok() {
                         deleted += 1;
                         freed_bytes += size;
@@ -160,6 +177,9 @@ impl GarbageCollector {
             }
         }
 
+        #[cfg(feature = "neumann_verif")]
+        tensor_store::verif_hooks::yield_point("blob.full_gc.refset_to_scan");
+
         // 2. Delete unreferenced chunks
         let mut deleted = 0;
         let mut freed_bytes = 0;
@@ -170,6 +190,8 @@ impl GarbageCollector {
                     let size =
                         usize::try_from(get_int(&tensor, "_size").unwrap_or(0).max(0)).unwrap_or(0);
 
+                    #[cfg(feature = "neumann_verif")]
+                    tensor_store::verif_hooks::yield_point("blob.full_gc.check_to_delete");
                     if self.store.delete(&chunk_key).is_ok() {
                         deleted += 1;
                         freed_bytes += size;
@@ -218,6 +240,8 @@ pub fn decrement_chunk_refs(store: &TensorStore, chunk_key: &str) -> Result<()> 
             "_refs",
             tensor_store::TensorValue::Scalar(tensor_store::ScalarValue::Int(new_refs)),
         );
+        #[cfg(feature = "neumann_verif")]
+        tensor_store::verif_hooks::yield_point("blob.decr.get_to_put");
         store.put(chunk_key, tensor)?;
     }
     Ok(())
@@ -239,6 +263,8 @@ pub fn increment_chunk_refs(store: &TensorStore, chunk_key: &str) -> Result<bool
             "_refs",
             tensor_store::TensorValue::Scalar(tensor_store::ScalarValue::Int(refs + 1)),
         );
+        #[cfg(feature = "neumann_verif")]
+        tensor_store::verif_hooks::yield_point("blob.incr.get_to_put");
         store.put(chunk_key, tensor)?;
         return Ok(true);
     }
